@@ -652,7 +652,15 @@ class Enforcer:
                 if self._is_directory_updated(self._policy_dir_mtimes,
                                               absolute_path):
                     force_reload_policy_dirs = True
-            if force_reload_policy_dirs and existing_policy_dirs:
+            # A policy directory that was loaded before and has vanished
+            # since is a change like any other: forget it and re-calculate.
+            vanished_policy_dirs = (set(self._policy_dir_mtimes) -
+                                    set(existing_policy_dirs))
+            for absolute_path in vanished_policy_dirs:
+                del self._policy_dir_mtimes[absolute_path]
+                force_reload_policy_dirs = True
+            if force_reload_policy_dirs and (existing_policy_dirs or
+                                             vanished_policy_dirs):
                 # Here we realize that some policy folders or main policy file
                 # were changed and we need to recalculate all rules from
                 # scratch.
